@@ -30,6 +30,7 @@ type Engine struct {
 	guarded    []*GuardedDecl
 	lemmas     []*LemmaDecl
 	globals    []*GlobalFact
+	preds      map[string]*SpecFunc
 	modsets   map[*ssa.Function]*ModSet
 	modInProgress map[*ssa.Function]bool
 	immGlobals map[*ssa.Global]int // 0 unknown, 1 immutable, 2 mutable
@@ -152,6 +153,12 @@ func (e *Engine) addFile(cf *ContractFile) {
 	for _, s := range cf.SpecFuncs {
 		e.specs[cf.Pkg+"::"+s.Name] = s
 	}
+	if e.preds == nil {
+		e.preds = map[string]*SpecFunc{}
+	}
+	for _, s := range cf.Preds {
+		e.preds[cf.Pkg+"::"+s.Name] = s
+	}
 	e.ghosts = append(e.ghosts, cf.Ghosts...)
 	e.invariants = append(e.invariants, cf.Invariants...)
 	e.guarded = append(e.guarded, cf.Guarded...)
@@ -236,6 +243,35 @@ func (e *Engine) contractFor(fn *ssa.Function) *Contract {
 	return nil
 }
 
+// contractForCall: like contractFor, but an extern contract may be specialised to the dynamic type of its
+// first interface argument: `extern container/heap.Pop[*clientMapInner](h heap.Interface) ...`.
+func (e *Engine) contractForCall(fn *ssa.Function, c *ssa.CallCommon) *Contract {
+	if !e.inRepo(fn) && len(c.Args) > 0 {
+		if mi, ok := c.Args[0].(*ssa.MakeInterface); ok {
+			tn := shortTypeName(mi.X.Type())
+			if _, isPtr := mi.X.Type().(*types.Pointer); isPtr {
+				tn = "*" + tn
+			}
+			for _, key := range []string{fn.String() + "[" + tn + "]", fn.String() + "[" + strings.TrimPrefix(tn[strings.LastIndex(tn, ".")+1:], "*") + "]"} {
+				if con, ok := e.contracts["extern::"+key]; ok {
+					return con
+				}
+			}
+			// "*pkg.T" -> "*T"
+			if i := strings.LastIndex(tn, "."); i >= 0 {
+				star := ""
+				if strings.HasPrefix(tn, "*") {
+					star = "*"
+				}
+				if con, ok := e.contracts["extern::"+fn.String()+"["+star+tn[i+1:]+"]"]; ok {
+					return con
+				}
+			}
+		}
+	}
+	return e.contractFor(fn)
+}
+
 func (e *Engine) ifaceContract(c *ssa.CallCommon) *Contract {
 	name := shortIfaceName(c.Value.Type()) + "." + c.Method.Name()
 	if con, ok := e.contracts["iface::"+name]; ok {
@@ -264,6 +300,16 @@ func (e *Engine) specFunc(pkg, name string) *SpecFunc {
 		return s
 	}
 	if s, ok := e.specs["::"+name]; ok {
+		return s
+	}
+	return nil
+}
+
+func (e *Engine) predFor(pkg, name string) *SpecFunc {
+	if s, ok := e.preds[pkg+"::"+name]; ok {
+		return s
+	}
+	if s, ok := e.preds["::"+name]; ok {
 		return s
 	}
 	return nil
@@ -696,7 +742,13 @@ func storeKey(addr ssa.Value) (key string, local *ssa.Alloc, ok bool) {
 	for {
 		switch x := v.(type) {
 		case *ssa.FieldAddr:
-			st := x.X.Type().Underlying().(*types.Pointer).Elem().Underlying().(*types.Struct)
+			ot := x.X.Type().Underlying().(*types.Pointer).Elem()
+			st := ot.Underlying().(*types.Struct)
+			ft := st.Field(x.Field).Type()
+			if _, named := ot.(*types.Named); named && embeddedObject(ft) {
+				// the embedded object has components of its own type
+				return "O!" + typeKey(ft) + pathStr(path), nil, true
+			}
 			path = append([]string{st.Field(x.Field).Name()}, path...)
 			v = x.X
 			continue
@@ -805,7 +857,7 @@ func (e *Engine) callMod(ms *ModSet, caller *ssa.Function, c *ssa.CallCommon) {
 	if c.IsInvoke() {
 		con := e.ifaceContract(c)
 		if con != nil {
-			e.contractMod(ms, con, nil)
+			e.contractMod(ms, con, nil, fnPkgPath(caller))
 			return
 		}
 		_, full := calleeNames(c)
@@ -833,6 +885,12 @@ func (e *Engine) callMod(ms *ModSet, caller *ssa.Function, c *ssa.CallCommon) {
 		}
 		return
 	case *ssa.Function:
+		if !e.inRepo(v) {
+			if con := e.contractForCall(v, c); con != nil {
+				e.contractMod(ms, con, v, fnPkgPath(caller))
+				return
+			}
+		}
 		e.fnMod(ms, v)
 		return
 	case *ssa.MakeClosure:
@@ -888,7 +946,11 @@ func (e *Engine) fnMod(ms *ModSet, fn *ssa.Function) {
 	ms.all = true
 }
 
-func (e *Engine) contractMod(ms *ModSet, con *Contract, fn *ssa.Function) {
+func (e *Engine) contractMod(ms *ModSet, con *Contract, fn *ssa.Function, callerPkg ...string) {
+	pk := con.Pkg
+	if pk == "" && len(callerPkg) > 0 {
+		pk = callerPkg[0]
+	}
 	if con.Pure {
 		return
 	}
@@ -905,11 +967,15 @@ func (e *Engine) contractMod(ms *ModSet, con *Contract, fn *ssa.Function) {
 				// element type unknown here: conservatively all byte elements (the only use)
 				ms.keys["E!uint8"] = true
 			} else if strings.HasPrefix(p, "elems(") {
-				ms.keys["E!"+canonTypeName(p[6:len(p)-1])] = true
+				if tt := e.lookupType(pk, p[6:len(p)-1]); tt != nil {
+					ms.keys["E!"+typeKey(tt)] = true
+				} else {
+					ms.keys["E!"+canonTypeName(p[6:len(p)-1])] = true
+				}
 			} else if strings.HasPrefix(p, "ghost ") {
 				ms.keys["X!"+strings.TrimSpace(p[6:])] = true
 			} else if dot := strings.Index(p, "."); dot > 0 {
-				if t := e.lookupType(con.Pkg, p[:dot]); t != nil {
+				if t := e.lookupType(pk, p[:dot]); t != nil {
 					ms.keys["O!"+typeKey(t)+p[dot:]] = true
 				} else {
 					ms.all = true
@@ -1000,6 +1066,20 @@ func (e *Engine) protectKeys(inv *InvariantDecl) []string {
 			dot := strings.Index(p, ".")
 			if ot := e.lookupType(inv.Pkg, p[:dot]); ot != nil {
 				out = append(out, "O!"+typeKey(ot)+p[dot:])
+				if st, ok := ot.Underlying().(*types.Struct); ok {
+					for i := 0; i < st.NumFields(); i++ {
+						if st.Field(i).Name() != p[dot+1:] {
+							continue
+						}
+						switch ft := st.Field(i).Type().Underlying().(type) {
+						case *types.Slice:
+							out = append(out, "E!"+typeKey(ft.Elem()))
+						case *types.Map:
+							k := typeKey(ft.Key()) + "!" + typeKey(ft.Elem())
+							out = append(out, "MH!"+k, "MV!"+k, "ML!"+k)
+						}
+					}
+				}
 			}
 		default:
 			out = append(out, "O!"+typeKey(t)+"."+p)
